@@ -10,9 +10,14 @@
    harness application).  Each event is one atomic step: the full statement of the
    property -- no deadlock among the real goroutines, handshakes bounded by their
    time-out on the TLS/DTLS listeners -- is NOT proved; those parts are observed by
-   the harness only (Serve still running, fresh client answered, Stop returns). *)
+   the harness only (Serve still running, fresh client answered, Stop returns).
+   The accept level of the stream/DTLS servers (Model.v Part 5: accepting never
+   waits for a handshake, one goroutine per accepted connection) has its own
+   non-interference theorems below; they are tied to the code by runs against a
+   real TLS listener and a real DTLS-PSK listener with peers that stall in their
+   handshake (TlsRun cases). *)
 From Coq Require Import ZArith List Bool.
-From GoCoap Require Import Base.Bytes Dedup.Model Server.Model Server.Proofs.
+From GoCoap Require Import Base.Bytes Dedup.Model Server.Model Server.Proofs Server.AcceptProofs.
 Import ListNotations.
 Open Scope Z_scope.
 
@@ -163,6 +168,74 @@ Theorem C10_accept_loop_keeps_running : forall script calls served reported,
   fst (fst (accept_loop script calls served reported)) = None.
 Proof. exact accept_loop_continues. Qed.
 Print Assumptions C10_accept_loop_keeps_running.
+
+(* ---- the accept level (Server/Model.v Part 5): one goroutine per accepted connection, the handshake of a
+   connection is an event of its own goroutine ----
+
+   FULL statement (not proved): on the real listeners a peer that stalls, garbles or abandons its TLS/DTLS
+   handshake delays no other peer, and its goroutine ends after the handshake time-out.  Proved for the model in
+   which the listener's results and the goroutines' events are atomic steps in an arbitrary interleaving; that the
+   real Serve loops are this model (in particular: no handshake inside the loop) is what the TlsRun cases observe. *)
+Section AcceptLevel.
+  Variables CS D O : Type.
+  Variable conn_init : CS.
+  Variable conn_step : CS -> D -> CS * list O.
+  Variable early_announce : bool.
+
+  (* the modelled fact: accepting never waits for a handshake *)
+  Theorem C10_accept_never_waits : forall (s : astate CS) c,
+    a_accepting s = true -> alookup CS c (a_conns s) = None ->
+    astep CS D O conn_init conn_step early_announce s (AvAccept c) =
+      (AS true ((c, (PhHandshake, conn_init)) :: a_conns s), AoSpawn c :: (if early_announce then [AoNew c] else [])).
+  Proof. exact (accept_never_waits CS D O conn_init conn_step early_announce). Qed.
+
+  (* non-interference lifted to the accept level *)
+  Theorem C10_accept_noninterference_partial : forall c evs (s : astate CS),
+    filter (aout_of c) (snd (arun CS D O conn_init conn_step early_announce s evs)) =
+    filter (aout_of c) (snd (arun CS D O conn_init conn_step early_announce s (filter (aev_keep c) evs))).
+  Proof. exact (accept_noninterference CS D O conn_init conn_step early_announce). Qed.
+
+  (* a handshake of another connection that completes, fails or never ends (no AvHandshake event), and whatever
+     else other connections do, does not change what connection c gets *)
+  Theorem C10_stalled_handshake_isolated_partial : forall c evs evs' (s : astate CS),
+    filter (aev_keep c) evs = filter (aev_keep c) evs' ->
+    filter (aout_of c) (snd (arun CS D O conn_init conn_step early_announce s evs)) =
+    filter (aout_of c) (snd (arun CS D O conn_init conn_step early_announce s evs')).
+  Proof. exact (stalled_handshake_isolated CS D O conn_init conn_step early_announce). Qed.
+
+  (* after ANY history without a stopping listener error, a new client is accepted, announced and served *)
+  Theorem C10_late_client_served_partial : forall evs c d,
+    (forall e x, In (AvAcceptErr e x) evs -> fst (fst (check_accept_error e x)) = true) ->
+    alookup CS c (a_conns (fst (arun CS D O conn_init conn_step early_announce (ainit CS) evs))) = None ->
+    filter (aout_of c)
+      (snd (arun CS D O conn_init conn_step early_announce
+              (fst (arun CS D O conn_init conn_step early_announce (ainit CS) evs))
+              [AvAccept c; AvHandshake c HsOk; AvData c d])) =
+      AoSpawn c :: AoNew c :: map (AoOut c) (snd (conn_step conn_init d)).
+  Proof. exact (late_client_served CS D O conn_init conn_step early_announce). Qed.
+End AcceptLevel.
+Print Assumptions C10_accept_never_waits.
+Print Assumptions C10_accept_noninterference_partial.
+Print Assumptions C10_stalled_handshake_isolated_partial.
+Print Assumptions C10_late_client_served_partial.
+
+(* contrast: a loop that finishes the handshake itself before it returns to Accept (NOT the code) loses the
+   property -- one connection that never finishes its handshake takes everything from a later one *)
+Theorem C10_inline_handshake_would_starve :
+  exists (evs : list (@aev nat)) c,
+    filter (@aout_of nat c) (snd (arun_inline unit nat nat tt (fun s d => (s, [d])) true (ainit unit) evs)) <>
+    filter (@aout_of nat c) (snd (arun_inline unit nat nat tt (fun s d => (s, [d])) true (ainit unit) (filter (@aev_keep nat c) evs))).
+Proof. exact inline_handshake_starves. Qed.
+Print Assumptions C10_inline_handshake_would_starve.
+
+(* non-vacuity at the accept level: connections 0 and 1 never finish their handshakes, connection 2 connects after
+   them and is served *)
+Example C10_accept_instance :
+  filter (@aout_of nat 2%nat)
+    (snd (arun unit nat nat tt (fun s d => (s, [d])) true (ainit unit)
+            [AvAccept 0%nat; AvAccept 1%nat; AvHandshake 1%nat HsErr; AvAccept 2%nat; AvHandshake 2%nat HsOk; AvData 2%nat 7%nat]))
+  = [AoSpawn 2%nat; AoNew 2%nat; AoOut 2%nat 7%nat].
+Proof. reflexivity. Qed.
 
 (* non-vacuity: a garbage datagram from peer 1 between two requests of peer 2; peer 1's connection is closed,
    peer 2 is answered from one connection *)
